@@ -357,13 +357,14 @@ impl utils::progress::ProgressUpdater for Progress {
         self.0.fetch_add(increment, std::sync::atomic::Ordering::SeqCst);
     }
 }
-/// Finding F4 (README.md): under CONCURRENT term fetches `DiskCache::put` now and then fails with an IO "No such file or directory"
-/// (item files are written and deleted outside the cache's state lock), and get_one_term propagates the error.  Known, reported,
-/// timing dependent: such a run is skipped (counted on stderr) unless C17_STRICT_CACHE_RACE=1.
+/// Finding F4 (README.md; repaired in /repo by 6341c53): under CONCURRENT term fetches `DiskCache::put` now and then fails with an IO
+/// "No such file or directory" (item files are written and deleted outside the cache's state lock); before the repair get_one_term
+/// propagated the error.  Such a run is a WITNESS; with C17_TOLERATE_CACHE_RACE=1 it is skipped (counted on stderr).
 const KNOWN_F4: &str = "ChunkCache Error: IO: No such file or directory";
 static F4_SKIPS: std::sync::atomic::AtomicUsize = std::sync::atomic::AtomicUsize::new(0);
 fn known_f4(e: &str) -> bool {
-    if e.contains(KNOWN_F4) && *cas_client::remote_client::NUM_CONCURRENT_RANGE_GETS > 1 && std::env::var("C17_STRICT_CACHE_RACE").is_err() {
+    // judged by default since the repair (6341c53); C17_TOLERATE_CACHE_RACE=1 restores the old skip for debugging older trees
+    if e.contains(KNOWN_F4) && *cas_client::remote_client::NUM_CONCURRENT_RANGE_GETS > 1 && std::env::var("C17_TOLERATE_CACHE_RACE").is_ok() {
         let n = F4_SKIPS.fetch_add(1, std::sync::atomic::Ordering::Relaxed) + 1;
         eprintln!("known finding F4 hit ({n} so far): {e}");
         true
@@ -514,10 +515,8 @@ fn run_plan(env: &Env, rng: &mut StdRng, plan: &Plan, note: &str, stale_every: u
     }
     // chunk caches that are (much) smaller than one fetched range, and barely larger than the largest one: a cache that cannot
     // hold what was fetched must not make the download fail or differ from the cache-less one (cold, then again).
-    // By default only in the child with NUM_CONCURRENT_RANGE_GETS = 1: with CONCURRENT term fetches HEAD d6ffad5 fails now and
-    // then (finding F4 in README.md: DiskCache::put_impl writes the item file outside the state lock while another put's eviction
-    // deletes files and the emptied key directory -> `ChunkCache Error: IO: No such file or directory`, which get_one_term
-    // propagates); C17_SMALL_CACHE_CONCURRENT=1 runs the class with concurrency as well.
+    // (Before 6341c53 this class failed now and then under concurrent term fetches - finding F4 in README.md: a failing cache put
+    // was propagated by get_one_term.)
     if !SMALL_CACHE_CLASS.load(std::sync::atomic::Ordering::Relaxed) || max_reqs != usize::MAX {
         return; // (not for the plans with delayed answers)
     }
@@ -897,7 +896,8 @@ fn main() {
     //    gets1 = HF_XET_NUM_CONCURRENT_RANGE_GETS=1, gets64 = ...=64 (default 16): sections get_file, 1, 2 and the larger plans of 3
     let mode = std::env::args().find_map(|a| a.strip_prefix("--mode=").map(|m| m.to_string())).unwrap_or_default();
     let want_gets: usize = match mode.as_str() { "gets1" => 1, "gets64" => 64, _ => 16 };
-    SMALL_CACHE_CLASS.store(mode == "gets1" || std::env::var("C17_SMALL_CACHE_CONCURRENT").is_ok(), std::sync::atomic::Ordering::Relaxed);
+    // every process runs the small-cache class (C17_NO_SMALL_CACHE=1 switches it off; before 6341c53 it was quiet only without concurrency)
+    SMALL_CACHE_CLASS.store(std::env::var("C17_NO_SMALL_CACHE").is_err(), std::sync::atomic::Ordering::Relaxed);
     if *cas_client::remote_client::NUM_CONCURRENT_RANGE_GETS != want_gets {
         println!("infrastructure: HF_XET_NUM_CONCURRENT_RANGE_GETS={want_gets} was not picked up (value {})", *cas_client::remote_client::NUM_CONCURRENT_RANGE_GETS);
         std::process::exit(2);
@@ -935,6 +935,27 @@ fn main() {
         p.fetch = make_fetch(&mut rng, &base, &p, style);
         store.lock().unwrap().delay_ms.insert(p.xorbs[0].path.clone(), 60);
         run_plan(&env, &mut rng, &p, &format!(" (fetch entries: {style:?}, every response delayed 60 ms)"), 3, 6);
+    }
+    // 1b. ONE blob url holding two xorbs back to back: two terms with DIFFERENT xorb hashes, both over chunk range [0, k), fetched
+    //     from the same url with different url_ranges, equal-sized chunks, both downloads in flight together
+    {
+        let mut p = next(&mut rng, "two xorbs stored back to back under one url, same chunk-index range", 2, 2, WholeXorb, true);
+        let k = p.xorbs[0].chunks.len().min(p.xorbs[1].chunks.len()) as u32;
+        p.terms = vec![(0, 0, k), (1, 0, k)];
+        let shared_path = format!("/blobs/shared-{}", p.xorbs[0].path.trim_start_matches('/').replace('/', "-"));
+        let (b0, b1) = { let s = store.lock().unwrap(); (s.blobs[&p.xorbs[0].path].clone(), s.blobs[&p.xorbs[1].path].clone()) };
+        let mut shared = (*b0).clone();
+        shared.extend_from_slice(&b1);
+        store.lock().unwrap().blobs.insert(shared_path.clone(), Arc::new(shared));
+        store.lock().unwrap().delay_ms.insert(shared_path.clone(), 60);
+        let url = format!("{base}{shared_path}");
+        let end0 = p.xorbs[0].stored_end[k as usize - 1];
+        let end1 = p.xorbs[1].stored_end[k as usize - 1];
+        p.fetch = HashMap::from([
+            (p.xorbs[0].hash.into(), vec![CASReconstructionFetchInfo { range: ChunkRange { start: 0, end: k }, url: url.clone(), url_range: HttpRange { start: 0, end: end0 as u32 - 1 } }]),
+            (p.xorbs[1].hash.into(), vec![CASReconstructionFetchInfo { range: ChunkRange { start: 0, end: k }, url: url.clone(), url_range: HttpRange { start: b0.len() as u32, end: (b0.len() + end1) as u32 - 1 } }]),
+        ]);
+        run_plan(&env, &mut rng, &p, &format!(" (both fetch entries: chunk range [0, {k}) of url {shared_path}, byte ranges [0, {}] and [{}, {}]; every response delayed 60 ms)", end0 - 1, b0.len(), b0.len() + end1 - 1), 3, 6);
     }
     eprintln!("section 1 done at {:?}", t0.elapsed());
     // 2. a slow FIRST term (its xorb answers after 80 ms), later terms from other xorbs complete first
